@@ -145,7 +145,32 @@ def run_model(Model, span, t, method='_evaluate', kwargs=None):
 
 
 def ref_env():
-    return dict(exp=np.exp, log=np.log, max=max, min=min, abs=abs, np=np, float=float, int=int)
+    return dict(exp=np.exp, log=np.log, max=max, min=min, abs=abs, np=np, float=float, int=int, len=len)
+
+
+class _Series:
+    def __init__(self, cells, name):
+        self.cells, self.name = cells, name
+
+    def __getitem__(self, i):
+        return self.cells[(self.name, i)]
+
+
+class _SelfView:
+    """What a verbatim fragment sees as `self`: `self._NAME[i]` and `self['NAME', label]`."""
+
+    def __init__(self, cells, label_pos):
+        self.__dict__['_cells'] = cells
+        self.__dict__['_label_pos'] = label_pos
+
+    def __getattr__(self, attr):
+        if attr.startswith('_'):
+            return _Series(self.__dict__['_cells'], attr[1:])
+        raise AttributeError(attr)
+
+    def __getitem__(self, key):
+        name, label = key
+        return self.__dict__['_cells'][(name, self.__dict__['_label_pos'][label])]
 
 
 def run_ref(eqs, names, span_len, t, label_pos=None):
@@ -160,6 +185,8 @@ def run_ref(eqs, names, span_len, t, label_pos=None):
         orig = dict(cells)
         for (ln, lo), code, phmap in eqs:
             env = ref_env()
+            env['t'] = t
+            env['self'] = _SelfView(cells, label_pos)  # for verbatim fragments, which address the storage directly
             for ph, (n, o) in phmap.items():
                 pos = label_pos[o[1]] if isinstance(o, tuple) else t + o
                 env[ph] = cells[(n, pos)]
